@@ -48,6 +48,14 @@ for prod in (1.0, 1.4, 1.6, 2.5, 2.875, 7.0, 51.0):
             R.check('tables/unequal-lengths-raise', c, False, 'no exception')
         except IndexError:
             R.check('tables/unequal-lengths-raise', c, True, None)
+# a frame preloaded with data is not empty: its estimates describe that data, and the first noise added re-estimates
+for it in range(R.n(2, 8)):
+    pre = np.random.default_rng(R.seed * 50 + it).normal(100.0, 3.0, (32, 256))
+    for how in ('data=', 'from_data'):
+        g = stg.Frame(fchans=256, tchans=32, df=2.79, dt=18.25, fch1=6e9, data=pre, seed=it) if how == 'data=' else stg.Frame.from_data(2.79, 18.25, 6e9, True, pre, seed=it)
+        ok0 = abs(g.noise_mean - 100.0) < 0.5 and abs(g.noise_std - 3.0) < 0.5
+        g.add_noise(10.0)
+        R.check('estimates/preloaded-frame-re-estimates-after-noise', dict(route=how, it=it), ok0 and abs(g.noise_mean - 110.0) < 1.0 and g.noise_std > 3.0, [float(g.noise_mean), float(g.noise_std)], '~(110, >3)')
 # voltage streams: quadrature
 for it in range(R.n(5, 30)):
     s = stg.voltage.DataStream(sample_rate=1e6, seed=it)
